@@ -89,7 +89,7 @@ def run_unit(args):
                     # sums over a symbolic extent are uninterpreted (congruence + a few linearity lemmas only): a counter-model that does not reproduce natively
                     # may be an artefact of that abstraction -> undecided, never a violation
                     r["status"] = "undecided"
-                    r["reason"] = "counter-model relies on an abstraction (uninterpreted reductions over a symbolic extent, or an uninterpreted library law) and did not reproduce natively (possible artefact of the abstraction)"
+                    r["reason"] = ("the program no longer has the shape this contract is stated over (" + str(r.get("what"))[:120] + "); no behavioural difference reproduced natively") if r.get("shape_fact") else "counter-model relies on an abstraction (uninterpreted reductions over a symbolic extent, or an uninterpreted library law) and did not reproduce natively (possible artefact of the abstraction)"
             elif r["status"] == "discharged" and rp is not None and (tier == "thorough" or os.environ.get("LVC_SELFTEST_REPLAYS")) and time.time() - t0 < 900:
                 # cross-check of prover against CPython: on a discharged obligation the native replay route must not find a failing input
                 try:
